@@ -35,6 +35,6 @@ Extraction "model.ml"
   l2_step_c l2_load_c l2_copy_c empty_lstore lwf_check wf_check abs col_ents
   write_lp file_bytes read_lp_res split_lines to_nlp write_mps wf_lpb fix_names default_objname
   read_mps_res mlp_to_nlp
-  wf_mpsb wf_coreb setnames_okb
+  wf_mpsb wf_coreb setnames_okb write_mps_fixed
   (* add names below, one line per area *)
   .
